@@ -26,7 +26,7 @@ type c10gen struct{ r *rng }
 func (g *c10gen) timeLit() (string, *big.Int) {
 	switch g.r.intn(8) {
 	case 0:
-		v := int64(g.r.intn(2000)) * 1e9
+		v := int64(g.r.intn(2000))*1e9 + int64(g.r.intn(3))*int64(g.r.intn(1e9))
 		return fmt.Sprint(v), big.NewInt(v)
 	case 1:
 		t := time.Date(2000+g.r.intn(30), time.Month(1+g.r.intn(12)), 1+g.r.intn(28), g.r.intn(24), g.r.intn(60), g.r.intn(60), g.r.intn(1e9), time.UTC)
@@ -38,7 +38,7 @@ func (g *c10gen) timeLit() (string, *big.Int) {
 		t := time.Date(2000+g.r.intn(30), time.Month(1+g.r.intn(12)), 1+g.r.intn(28), g.r.intn(24), g.r.intn(60), g.r.intn(60), 0, time.UTC)
 		return "'" + t.Format("2006-01-02 15:04:05") + "'", bigNanos(t)
 	case 4:
-		d := time.Duration(g.r.intn(100000)) * time.Second
+		d := time.Duration(g.r.intn(100000)) * pick(g.r, []time.Duration{time.Second, time.Millisecond, time.Microsecond, time.Nanosecond, 1500 * time.Millisecond, 90 * time.Minute})
 		return influxql.FormatDuration(d), big.NewInt(int64(d))
 	case 5:
 		d := time.Duration(g.r.intn(100000)) * time.Minute
